@@ -202,6 +202,8 @@ class IncomingBallsHandler(BallDeviceStateHandler):
         """Remove incoming ball."""
         self.debug_log("Removing incoming ball from %s", incoming_ball.source)
         self._incoming_balls.remove(incoming_ball)
+        # a source may wait in wait_for_ready_to_receive for this slot. let it check again.
+        self.ball_device.ball_count_handler.incoming_balls_changed()
         if self.ball_device.config['mechanical_eject'] and incoming_ball.wait_for_can_skip().done():
             self.ball_device.outgoing_balls_handler.remove_incoming_ball_which_may_skip(incoming_ball)
 
